@@ -85,6 +85,11 @@ func buildHistPool(seed uint64, big bool) *histPool {
 		}
 		hp.singles = append(hp.singles, add(Medium{Records: rs}, acc))
 	}
+	// two different streams with more than 256 distinct definitions each (bounded
+	// process-wide tables keyed by definition content)
+	for i := 0; i < 2; i++ {
+		hp.singles = append(hp.singles, add(Medium{Records: manyDefsStream(NewRng(seed, "C08/manydefs", i), 300+40*i)}, false))
+	}
 	// streams from the time / local-type / option generators (stateful decoding paths;
 	// some of them end in an error by construction)
 	c12, c13 := &propC12{}, &propC13{}
